@@ -177,6 +177,8 @@ def req_of_oracle(line):
     m = re.search(r"input=(\S+)", line)
     if not m:
         return ""
+    if m.group(1).startswith("cid_"):
+        return m.group(1).replace("_", " ")
     t = re.search(r"type=(\S+)", line)
     if t:
         return f"tyv {t.group(1)} {m.group(1)}   (after the `tenv` line of the run, req.txt line 1)"
@@ -292,9 +294,17 @@ def combine_runs(*runs):
     def run(pid, spec, tier, seed, replay):
         total = None
         violations = []
-        for i, (prefix, r) in enumerate(runs):
-            if replay and i > 0:
-                break
+        todo = [(t[0], t[1]) for t in runs]
+        if replay:
+            # a replay goes to the run whose marker (third element) occurs in the replay file, else to the first run
+            try:
+                with open(replay, encoding="utf-8", errors="replace") as f:
+                    text = f.read()
+            except OSError:
+                text = ""
+            marked = [(t[0], t[1]) for t in runs if len(t) > 2 and t[2] in text]
+            todo = marked[:1] or todo[:1]
+        for i, (prefix, r) in enumerate(todo):
             res = r(pid, spec, tier, seed, replay)
             cov = res["coverage"]
             violations.extend(res["violations"])
@@ -320,10 +330,22 @@ C04_SYS_RULE = ("sys scenario B (real broker, 2-4 real clients under a PRNG-chos
                 "implementation-only oracle: every proxy subscribed to that id or to all events of the service receives it")
 
 
+C05_SYS_RULE = ("sys scenario B (real broker, 2-4 real clients, real Sender / Receiver): items carry their sequence number and must arrive "
+                "in order; seven closing rounds in which every idle sender sends if it may, every idle receiver takes what has arrived, and "
+                "every sender polls receiver_closed; implementation-only oracle: in the end a sender whose receiver is alive and has taken "
+                "every item is allowed to send (the receiver's remaining capacity is positive and has been announced)")
+
+
 C10_SYS_RULE = ("sys scenario B (real broker, 2-4 real clients, several bus listeners per client with different filters, "
                 "started and stopped at random points): implementation-only oracle: whatever a listener yields matches one of the "
                 "filters it has ever been given (the broker sends a new event once per connection; the client library must match "
                 "it against every listener's own filters)")
+
+
+CONNID_RULE = ("allocator of connection ids (real ConnectionIdManager through the verif-hooks feature of aldrin-broker vs. "
+               "Model/ConnId.lean): random histories of connects, clones and drops in oldest-first / newest-first / random order; the "
+               "numbers handed out and the final `next` / free list must agree; implementation-only oracle: no number is handed out "
+               "while a connection with that number is alive, and neither debug_assert! of Inner::release fires")
 
 
 def broker_prop(pid, module):
@@ -336,6 +358,16 @@ def broker_prop(pid, module):
         base["trusted"] = list(base["trusted"]) + ["the owner's client-side subscription record (aldrin/src/client/broker_subscriptions.rs) is "
                                                    "not modelled; it is exercised by the probe round of sys scenario B only"]
         return base
+    if pid == "C05":
+        base = broker_prop("C05*", module)
+        base["run"] = combine_runs(("", base["run"]),
+                                   ("sys.", generic_run("sys", set(), {"C05"}, {"quick": (300, 4), "thorough": (3000, 14)},
+                                                        canon=None, scenario_cmd="cnew", full_canon=lambda q, line: line,
+                                                        extra_args=["B"], rule=C05_SYS_RULE, subdir="-sys")))
+        base["trusted"] = list(base["trusted"]) + ["the client library's Sender / Receiver (aldrin/src/low_level/channel/established.rs: the sender's count "
+                                                   "of announced capacity, the receiver's replenishment at the low-water mark) is not modelled; it is "
+                                                   "exercised by the channel rounds of sys scenario B only"]
+        return base
     if pid == "C10":
         base = broker_prop("C10*", module)
         base["run"] = combine_runs(("", base["run"]),
@@ -344,6 +376,16 @@ def broker_prop(pid, module):
                                                         extra_args=["B"], rule=C10_SYS_RULE, subdir="-sys")))
         base["trusted"] = list(base["trusted"]) + ["the client library's fan-out of untagged bus events to the listeners of one client "
                                                    "(aldrin/src/bus_listener.rs) is not modelled; it is exercised by sys scenario B only"]
+        return base
+    if pid in ("C09", "C11"):
+        base = broker_prop(pid + "*", module)
+        base["run"] = combine_runs(("", base["run"]),
+                                   ("connid.", generic_run("connid", {"cid"}, {pid}, {"quick": (3000, 4), "thorough": (60000, 14)},
+                                                           rule=CONNID_RULE, subdir="-connid"), "cid a"))
+        base["trusted"] = list(base["trusted"]) + [
+            "the allocator of connection ids (broker/src/conn_id.rs) is modelled with usize as Nat; that the broker acquires one id "
+            "per connection and that the id is released exactly once, when the last Arc clone is dropped, is Rust's ownership "
+            "discipline and is taken as given (the harness clones and drops ids in random orders through the verif-hooks wrapper)"]
         return base
     pid = pid.rstrip("*")
     return {
